@@ -86,6 +86,14 @@ func sortFromName(s string) string {
 		return "F32"
 	case "Ref", "Map":
 		return "Int"
+	case "ValArr":
+		return "(Array Int Val)"
+	case "ErrArr":
+		return "(Array Int Iface)"
+	case "BoolArr":
+		return "(Array Int Bool)"
+	case "IntArr":
+		return "(Array Int Int)"
 	}
 	return s
 }
@@ -121,7 +129,8 @@ func (e *Env) Tr(x *Expr) TTerm {
 			return TTerm{S: e.wm0, Sort: "Int"}
 		case "heap":
 			v, d, c := e.mapFams()
-			t := "(mkheap " + e.seq("Val") + " " + v + " " + d + " " + c + ")"
+			sp, sv := e.scopeFams()
+			t := "(mkheap " + e.seq("Val") + " " + v + " " + d + " " + c + " " + sp + " " + sv + ")"
 			if e.onHeap != nil {
 				e.onHeap(t)
 			}
@@ -306,6 +315,16 @@ func (e *Env) args(x *Expr) []TTerm {
 	return out
 }
 
+// scopeFams: the two field heaps of evaluator.variableScope (part of the heap bundle ghost functions see)
+func (e *Env) scopeFams() (string, string) {
+	t := e.g.lookupNamed("evaluator.variableScope")
+	if t == nil {
+		e.g.Family("F_noscope", "(Array Int Int)")
+		return e.famOf("F_noscope"), e.famOf("F_noscope")
+	}
+	return e.famOf(e.g.FieldFamily(t, 0)), e.famOf(e.g.FieldFamily(t, 1))
+}
+
 func (e *Env) mapFams() (string, string, string) {
 	v, d, c := e.g.MapFamilies("Val")
 	return e.famOf(v), e.famOf(d), e.famOf(c)
@@ -427,6 +446,12 @@ func (e *Env) call(x *Expr) TTerm {
 	case "ite":
 		if !need(3) {
 			return B("false")
+		}
+		if a[1].Sort == "Nil" {
+			a[1] = coerceNil(a[1], a[2].Sort)
+		}
+		if a[2].Sort == "Nil" {
+			a[2] = coerceNil(a[2], a[1].Sort)
 		}
 		return TTerm{S: "(ite " + a[0].S + " " + a[1].S + " " + a[2].S + ")", Sort: a[1].Sort, T: a[1].T}
 	case "min":
@@ -562,6 +587,27 @@ func (e *Env) call(x *Expr) TTerm {
 			return B(fmt.Sprintf("(= (itype %s) %d)", a[0].S, id))
 		}
 		return e.fail("isType needs (value, \"type\")")
+	case "repoErr":
+		// the error value is one the repository itself creates (a sentinel or one of its error types)
+		if need(1) {
+			var alts []string
+			alts = append(alts, "(errors.repoSentinel "+a[0].S+")")
+			errType := types.Universe.Lookup("error").Type().Underlying().(*types.Interface)
+			for _, p := range e.g.Pkgs {
+				sc := p.Pkg.Scope()
+				for _, n := range sc.Names() {
+					tn, ok := sc.Lookup(n).(*types.TypeName)
+					if !ok {
+						continue
+					}
+					pt := types.NewPointer(tn.Type())
+					if types.Implements(pt, errType) {
+						alts = append(alts, fmt.Sprintf("(= (itype %s) %d)", a[0].S, e.g.TypeID(pt)))
+					}
+				}
+			}
+			return B("(or " + strings.Join(alts, " ") + ")")
+		}
 	case "global":
 		if len(x.Args) == 1 && x.Args[0].Op == "str" {
 			q := x.Args[0].Name
@@ -595,6 +641,9 @@ func (e *Env) call(x *Expr) TTerm {
 		}
 		var as []string
 		for i, t := range a {
+			if t.Sort == "Nil" {
+				t = coerceNil(t, sortFromName(g.Params[i][1]))
+			}
 			if want := sortFromName(g.Params[i][1]); want != t.Sort {
 				return e.fail("argument %d of %s: want %s, got %s in %s", i, x.Name, want, t.Sort, x)
 			}
@@ -620,6 +669,18 @@ func (e *Env) call(x *Expr) TTerm {
 		return TTerm{S: "(" + al[0] + " " + strings.Join(as, " ") + ")", Sort: al[1]}
 	}
 	switch x.Name {
+	case "sparent":
+		if need(2) {
+			return TTerm{S: "(select (hsp " + a[0].S + ") " + a[1].S + ")", Sort: "Int"}
+		}
+	case "svars":
+		if need(2) {
+			return TTerm{S: "(select (hsv " + a[0].S + ") " + a[1].S + ")", Sort: "Int"}
+		}
+	case "upd":
+		if need(3) {
+			return TTerm{S: "(store " + a[0].S + " " + a[1].S + " " + a[2].S + ")", Sort: a[0].Sort}
+		}
 	case "at":
 		if need(3) {
 			return TTerm{S: fmt.Sprintf("(select (select (hq %s) (sref %s)) (+ (soff %s) %s))", a[0].S, a[1].S, a[1].S, a[2].S), Sort: "Val"}
@@ -785,8 +846,16 @@ func (g *Gen) EmitGhosts(b *strings.Builder) error {
 		if body.Sort != rs {
 			return fmt.Errorf("ghost %s (%s): body has sort %s, declared %s", gf.Name, gf.Pos, body.Sort, rs)
 		}
+		hasHeap := false
+		for _, p := range gf.Params {
+			if p[1] == "Heap" {
+				hasHeap = true
+			}
+		}
 		if !recursive {
 			fmt.Fprintf(b, "(define-fun %s (%s) %s %s)\n", gf.Name, strings.Join(ps, " "), rs, body.S)
+		} else if hasHeap {
+			// defining equation is a heap-schematic axiom, added by SynthesizeHeapGhostAxioms
 		} else {
 			app := "(" + gf.Name + " " + strings.Join(as, " ") + ")"
 			fmt.Fprintf(b, "(assert (forall (%s) (! (= %s %s) :pattern (%s))))\n", strings.Join(ps, " "), app, body.S, app)
@@ -860,4 +929,46 @@ func (g *Gen) InstHeapAxioms(env *Env, heap string) []string {
 		out = append(out, "(assert "+t.S+") ; axiom "+ax.Pos+" at heap")
 	}
 	return out
+}
+
+func coerceNil(t TTerm, sort string) TTerm {
+	switch sort {
+	case "Val":
+		return TTerm{S: "VNil", Sort: "Val"}
+	case "Iface":
+		return TTerm{S: "niliface", Sort: "Iface"}
+	case "Int":
+		return TTerm{S: "0", Sort: "Int"}
+	case "Slice":
+		return TTerm{S: "nilslice", Sort: "Slice"}
+	}
+	return t
+}
+
+// SynthesizeHeapGhostAxioms turns the defining equation of every recursive ghost function with a
+// Heap parameter into a heap-schematic axiom (instantiated per heap term inside each function).
+func (sp *Spec) SynthesizeHeapGhostAxioms() {
+	for _, gf := range sp.Ghosts {
+		if gf.Body == nil || !exprMentions(gf.Body, gf.Name) {
+			continue
+		}
+		hasHeap := false
+		for _, p := range gf.Params {
+			if p[1] == "Heap" {
+				hasHeap = true
+			}
+		}
+		if !hasHeap {
+			continue
+		}
+		var args []*Expr
+		var bound [][2]string
+		for _, p := range gf.Params {
+			args = append(args, &Expr{Op: "var", Name: p[0]})
+			bound = append(bound, [2]string{p[0], p[1]})
+		}
+		app := &Expr{Op: "call", Name: gf.Name, Args: args}
+		sp.Axioms = append(sp.Axioms, &Clause{Kind: "axiom", Pos: gf.Pos, Text: "definition of " + gf.Name,
+			E: &Expr{Op: "forall", Bound: bound, Trig: []*Expr{app}, Args: []*Expr{{Op: "==", Args: []*Expr{app, gf.Body}}}}})
+	}
 }
